@@ -510,4 +510,11 @@ def unit():
     return Unit('server', prelude=['base.rs', 'time.rs', 'delay_queue.rs', 'server_models.rs', 'trace_models.rs', 'transport.rs', 'server_queues.rs', 'cancellations.rs'],
                 parts=server_table.parts() + base_channel_parts() + throttle_parts() + requests_parts(), rules=RULES,
                 fx_fns=server_table.FX_CALLS + [r'(?:inner|channel)\s*\.poll_next\(', r'\.pump_read\('],
-                fx_prims=[r'request_cancellation\.cancel\(', r'response_tx\.send\('], fx_type='SFx')
+                fx_prims=[r'request_cancellation\.cancel\(', r'response_tx\.send\('], fx_type='SFx',
+                accessor_guards=[
+                    (SRC, BC_IMPL, 'in_flight_requests_mut', r'\{\s*self\.as_mut\(\)\.project\(\)\.in_flight_requests\s*\}'),
+                    (SRC, BC_IMPL, 'canceled_requests_pin_mut', r'\{\s*self\.as_mut\(\)\.project\(\)\.canceled_requests\s*\}'),
+                    (SRC, BC_IMPL, 'transport_pin_mut', r'\{\s*self\.as_mut\(\)\.project\(\)\.transport\s*\}'),
+                    (SRC, RQ_IMPL, 'channel_pin_mut', r'\{\s*self\.as_mut\(\)\.project\(\)\.channel\s*\}'),
+                    (SRC, RQ_IMPL, 'pending_responses_mut', r'\{\s*self\.as_mut\(\)\.project\(\)\.pending_responses\s*\}'),
+                ])
